@@ -16,14 +16,14 @@ def obligations(tier: str) -> list[Ob]:
             bounds={"reference table": "3 entries, each a reference / the body / dangling / absent; start: any of them or None"},
         ),
         harness_ob(
-            "resolvers_ref_equals_inline", "C20_equiv.py", tier, timeout=240 if q else 900, cpus=4,
+            "resolvers_ref_equals_inline", "C20_equiv.py", tier, timeout=330 if q else 900, cpus=6,
             encoded=[
                 "openapi_python_client.parser.properties.schemas:parameter_from_reference", "openapi_python_client.parser.properties.schemas:parameter_from_data",
                 "openapi_python_client.parser.openapi:Endpoint.add_parameters", "openapi_python_client.parser.responses:response_from_data",
                 "openapi_python_client.parser.properties:_property_from_ref", "openapi_python_client.parser.properties.schemas:parse_reference_path",
             ],
             stubs=["parameter kinds, names, locations, response contents and malformed reference strings come from pools selected by symbolic indices"],
-            bounds={"parameter": "4 locations x 5 kinds x 3 names x required", "response contents": 5, "malformed refs": 6, "schema kinds": "3 x 4 wrappers x required"},
+            bounds={"parameter": "4 locations x 5 kinds x 3 names x required", "response contents": 5, "malformed refs": 6, "schema kinds": "3 x 4 wrappers x required", "component aliases": "6 target shapes x 3 wrappers x 6 declaration orders, direct and through a second alias"},
         ),
         harness_ob(
             "dangling_ref_containment", "C08_state.py", tier, funcs=["only_the_failing_model_is_removed"], timeout=240 if q else 900, cpus=2,
